@@ -147,6 +147,10 @@ pub struct ConcParams {
     /// concurrently with the writer's commits
     #[serde(default)]
     pub maintenance: Vec<Op>,
+    /// each reader first takes this many snapshots back to back (dumping them afterwards):
+    /// a long stretch of snapshot-taking that can overlap a publication step
+    #[serde(default)]
+    pub burst: usize,
 }
 
 pub struct SnapshotCheck;
@@ -232,12 +236,15 @@ impl Check for SnapshotCheck {
             ops.retain(|o| !matches!(o, Op::Compact) || !std::mem::replace(&mut seen, true));
         }
         let mut compactions = ops.iter().filter(|o| matches!(o, Op::Compact)).count();
+        let many_snaps = rng.chance(0.3);
         let params = ConcParams {
             mode: gen_mode(&mut rng),
             readers: rng.range(1, 3) as usize,
-            snaps_per_reader: rng.range(1, 4) as usize,
-            dumps_per_snap: rng.range(1, 3) as usize,
+            // many short-lived snapshots: more chances to land inside a publication step
+            snaps_per_reader: if many_snaps { rng.range(5, 10) as usize } else { rng.range(1, 4) as usize },
+            dumps_per_snap: if many_snaps { 1 } else { rng.range(1, 3) as usize },
             step_cap: 60_000,
+            burst: if rng.chance(0.3) { rng.range(6, 24) as usize } else { 0 },
             maintenance: if rng.chance(0.5) {
                 (0..rng.range(1, 3))
                     .map(|_| {
@@ -330,11 +337,25 @@ impl Check for SnapshotCheck {
             let obs = observations.clone();
             let n_snaps = params.snaps_per_reader;
             let n_dumps = params.dumps_per_snap;
+            let burst = params.burst;
             programs.push((
                 format!("reader{r}"),
                 Box::new(move || {
                     let engine = slot.lock().unwrap().clone().unwrap();
                     let mut held: Vec<(usize, ndb_storage::api::StorageSnapshot)> = Vec::new();
+                    if burst > 0 {
+                        let mut taken = Vec::new();
+                        for _ in 0..burst {
+                            let inv = ev.fetch_add(1, Ordering::SeqCst);
+                            let snap = engine.snapshot();
+                            let ret = ev.fetch_add(1, Ordering::SeqCst);
+                            taken.push((inv, ret, snap));
+                        }
+                        for (inv, ret, snap) in taken {
+                            let d = dump_snapshot(&snap, probe);
+                            obs.lock().unwrap().push(SnapObs { reader: r, inv, ret, dumps: vec![d] });
+                        }
+                    }
                     for _ in 0..n_snaps {
                         let inv = ev.fetch_add(1, Ordering::SeqCst);
                         let snap = engine.snapshot();
@@ -524,7 +545,7 @@ impl Check for SnapshotCheck {
     }
     fn shrink_candidates(&self, case: &Case) -> Vec<Case> {
         let mut out = Vec::new();
-        for (key, min) in [("readers", 1u64), ("snaps_per_reader", 1), ("dumps_per_snap", 1)] {
+        for (key, min) in [("readers", 1u64), ("snaps_per_reader", 1), ("dumps_per_snap", 1), ("burst", 0)] {
             if let Some(v) = case.params.get(key).and_then(|v| v.as_u64())
                 && v > min
             {
